@@ -34,7 +34,7 @@ func brCoq(g *Graph) string {
 	case "fail":
 		return lib.CoqApp("BrFail", g.BrErr.coq())
 	case "panic":
-		return lib.CoqApp("BrPanic", lib.CoqN(uint64(g.BrID)))
+		return lib.CoqApp("BrPanic", lib.CoqN(uint64(pay(g.BrID))))
 	}
 	return "BrOk"
 }
@@ -63,7 +63,7 @@ func (f *flat) node(n *Node) string {
 		case "fail":
 			b = lib.CoqApp("BFail", n.Err.coq())
 		case "panic":
-			b = lib.CoqApp("BPanic", lib.CoqN(uint64(n.ID)))
+			b = lib.CoqApp("BPanic", lib.CoqN(uint64(pay(n.ID))))
 		case "item":
 			b = lib.CoqApp("BItem", n.Err.coq())
 		case "rerun":
@@ -71,7 +71,7 @@ func (f *flat) node(n *Node) string {
 		case "cancel":
 			b = "BCancel"
 		case "convpanic":
-			b = lib.CoqApp("BConvPanic", lib.CoqN(uint64(n.ID)))
+			b = lib.CoqApp("BConvPanic", lib.CoqN(uint64(pay(n.ID))))
 		case "prefail":
 			b = lib.CoqApp("BPreFail", n.Err.coq())
 		case "postfail":
@@ -94,9 +94,9 @@ func (f *flat) node(n *Node) string {
 			case "fail":
 				ts = append(ts, lib.CoqApp("TFail", t.Err.coq()))
 			case "panic":
-				ts = append(ts, lib.CoqApp("TPanic", lib.CoqN(uint64(t.ID))))
+				ts = append(ts, lib.CoqApp("TPanic", lib.CoqN(uint64(pay(t.ID)))))
 			case "convpanic":
-				ts = append(ts, lib.CoqApp("TConvPanic", lib.CoqN(uint64(t.ID))))
+				ts = append(ts, lib.CoqApp("TConvPanic", lib.CoqN(uint64(pay(t.ID)))))
 			default:
 				panic("harness: bad tool behaviour " + t.Beh)
 			}
